@@ -672,7 +672,7 @@ func packagePrepareWalkFn(root string, ignoreRules *ignorefiles.Ruleset) filepat
 		if err != nil {
 			return fmt.Errorf("invalid .terraformignore rules: %#w", err)
 		}
-		if ignored.Excluded {
+		if ignored.Excluded && !info.IsDir() {
 			err := os.RemoveAll(absPath)
 			if err != nil {
 				return fmt.Errorf("failed to remove ignored file %s: %s", relPath, err)
@@ -681,18 +681,20 @@ func packagePrepareWalkFn(root string, ignoreRules *ignorefiles.Ruleset) filepat
 		}
 
 		// For directories we also need to check with a path separator on the
-		// end, which ignores entire subtrees.
-		//
-		// TODO: What about exclusion rules that follow a matching directory?
-		// Example:
-		//   /logs
+		// end, which ignores entire subtrees. A whole subtree may only be
+		// removed when the match is dominating, meaning that the rule covers
+		// everything below the directory and no later rule can re-include
+		// part of it, as in:
+		//   /logs/
 		//   !/logs/production/*
+		// Otherwise we keep the directory and let each entry below it be
+		// judged by its own path, exactly as the slug packer does.
 		if info.IsDir() {
 			ignored, err := ignoreRules.Excludes(relPath + string(os.PathSeparator))
 			if err != nil {
 				return fmt.Errorf("invalid .terraformignore rules: %#w", err)
 			}
-			if ignored.Excluded {
+			if ignored.Excluded && ignored.Dominating {
 				err := os.RemoveAll(absPath)
 				if err != nil {
 					return fmt.Errorf("failed to remove ignored file %s: %s", relPath, err)
